@@ -250,7 +250,7 @@ class Flwdir(object):
         idxs_us_main = core.main_upstream(
             idxs_ds=self.idxs_ds, uparea=self._check_data(uparea, "uparea"), mv=self._mv
         )
-        if self.cache:
+        if self.cache and uparea is None:
             self._cached.update(idxs_us_main=idxs_us_main)
         return idxs_us_main
 
